@@ -14,7 +14,7 @@ import struct
 from ..engine import rule, run_property
 from ..model import Undecided
 from ..cfg import dotted, call_name, is_call, simple_name, unparse, const_value, contains, enclosing
-from ..flow import Defs, depends, try_const, consteval, NotConst
+from ..flow import Canon, Defs, depends, try_const, consteval, NotConst
 from ..util import keyword, returns_of, calls_in, inside, order_key
 
 NOT_DECIDED = ('byte-level validity of a bundle after an arbitrary history; the size accounting behind the '
@@ -338,7 +338,11 @@ def c19e(ctx):
     rn = sorted([x for x in df.walk() if is_call(x, 'os.rename', 'os.replace')], key=order_key)
     ok = len(rn) == 2
     if ok:
-        a, b = rn[1].args
-        ok = 'tmp_bundle' in unparse(a) and 'bundlx' in unparse(a) and 'bundle_file' in unparse(b) and 'tmp_bundle' not in unparse(b)
+        cf = Canon(df)
+        a, b = (cf.expr(x) for x in rn[1].args)
+        tmp = cf.text(rn[0].args[0]).rsplit('+', 1)[0]          # stem of the temporary bundle (source of the data-file rename)
+        final = cf.text(rn[0].args[1])                           # the original bundle file (its destination)
+        at, bt = unparse(a).replace(' ', ''), unparse(b).replace(' ', '')
+        ok = at.startswith(tmp) and 'bundlx' in at and final in bt and tmp not in bt and final not in at
     ctx.check(ok, 'defrag:index-rename-direction', 'the temporary index file is renamed onto the original index name', df,
               fail='defrag renames the index file in the wrong direction')
